@@ -147,6 +147,76 @@ Definition c03_ok (c : scase) : bool :=
       end
   end.
 
+(* C02: the documented predicate of every refinement, strict (an empty range is satisfied by nothing),
+   dependent refinements against the actual sibling values; floats up to rounding *)
+Definition vkind_is (b : base) (v : value) : bool :=
+  match b, v with BInt, VInt _ | BFloat, VFloat _ | BStr, VStr _ | BBool, VBool _ => true | _, _ => false end.
+
+Definition Qle_tol (a b : Q) : bool := Qle_bool a (b + tol a b)%Q.
+
+Fixpoint satb (d : decl) (r : rstate) (fuel : nat) (deps : list value) (t : ty) (v : value) : bool :=
+  match fuel with
+  | O => false
+  | S f =>
+      let fix fieldsb (deps : list value) (ts : list ty) (vs : list value) : bool :=
+        match ts, vs with
+        | [], [] => true
+        | t :: ts', v :: vs' => satb d r f deps t v && fieldsb (deps ++ [v]) ts' vs'
+        | _, _ => false
+        end in
+      let fix tupleb (ts : list ty) (vs : list value) : bool :=
+        match ts, vs with
+        | [], [] => true
+        | t :: ts', v :: vs' => satb d r f [] t v && tupleb ts' vs'
+        | _, _ => false
+        end in
+      match t with
+      | TBase b => vkind_is b v
+      | TSym c => match v with
+                  | VNode c' args => prod_ofb d r (S (length (d_classes d))) c c' && fieldsb [] (fields_of d (SC c')) args
+                  | _ => false end
+      | TList t' => match v with VList vs => forallb (satb d r f [] t') vs | _ => false end
+      | TTuple ts => match v with VTuple vs => tupleb ts vs | _ => false end
+      | TUnion ts => existsb (fun t' => satb d r f deps t' v) ts
+      | TAnn base m =>
+          match m with
+          | MIntRange lo hi => satb d r f deps base v && match v with VInt z => (lo <=? z) && (z <=? hi) | _ => false end
+          | MIntList xs => satb d r f deps base v && match v with VInt z => existsb (Z.eqb z) xs | _ => false end
+          | MFloatRange lo hi => satb d r f deps base v && match v with VFloat (FQ q) => Qle_tol lo q && Qle_tol q hi | VFloat FAny => true | _ => false end
+          | MFloatList xs => satb d r f deps base v && match v with VFloat (FQ q) => existsb (Qclose q) xs | _ => false end
+          | MVarRange opts => satb d r f deps base v && existsb (value_close v) opts
+          | MListSize lo hi _ =>
+              match base, v with
+              | TList inner, VList vs => forallb (satb d r f deps inner) vs && (lo <=? zlen vs) && (zlen vs <=? hi)
+              | _, _ => false end
+          | MStringSize lo hi alphabet =>
+              satb d r f deps base v &&
+              match v with VStr cs => (lo <=? zlen cs) && (zlen cs <=? hi) && forallb (fun c => existsb (Z.eqb c) alphabet) cs | _ => false end
+          | MWeightedString rows alphabet =>
+              satb d r f deps base v &&
+              match v with VStr cs => (zlen cs =? zlen rows) && forallb (fun c => existsb (Z.eqb c) alphabet) cs | _ => false end
+          | MInterval minlen maxlen top =>
+              satb d r f deps base v &&
+              match v with VTuple [VInt a; VInt b] => (minlen <=? b - a) && (b - a <=? maxlen) && (0 <=? a) && (b <=? top) | _ => false end
+          | MDependent names fn =>
+              match lookup_deps deps names with
+              | Ok vals => match eval_dep fn vals with Ok m' => satb d r f deps (TAnn base m') v | Err _ => false end
+              | Err _ => false end
+          end
+      end
+  end.
+
+Definition c02_ok (c : scase) : bool :=
+  match c with
+  | KSynth d k s start o =>
+      match obs_grammar d, so_phase o, so_res o with
+      | Some g, PhCreate, POk v =>
+          let t := match start with Some t => t | None => TSym (d_start d) end in
+          satb (g_decl g) (g_reg g) (wt_fuel v) [] t v
+      | _, _, _ => true
+      end
+  end.
+
 (* known finding F38: the progressive decider has no depth bound, creation may recurse without end *)
 Definition f38_region (c : scase) : bool :=
   match c with
@@ -158,7 +228,48 @@ Definition run_synth (f : scase -> bool) (cases : list scase) : list N * list N 
   (failing synth_corr cases, failing f cases).
 Definition run_c10 := run_synth c10_ok.
 Definition run_c03 := run_synth c03_ok.
+Definition run_c02 := run_synth c02_ok.
 (* (correspondence, C01 outside known regions, F38 hits) *)
 Definition run_c01 (cases : list scase) : list N * list N * list N :=
   (failing synth_corr cases, failing (fun c => c01_ok c || f38_region c) cases,
    failing (fun c => c01_ok c || negb (f38_region c)) cases).
+
+(* ---------- a refinement on its own: generate, then validate (C02, second clause) ---------- *)
+Inductive mhcase :=
+| KMh (m : mh) (s : src) (res : pyres value) (so : srcobs) (val : option (pyres bool)).
+
+Definition st_of_src (s : src) : sst := mkSt s None [] [] [].
+
+Definition mh_corr (c : mhcase) : bool :=
+  match c with
+  | KMh m s res so val =>
+      match mh_generate_flat m with
+      | None => true
+      | Some gen =>
+          let '(r, st) := gen (st_of_src s) in
+          match r, res with
+          | Ok v, POk w => value_close v w && src_matches (st_src st) so &&
+                           match val, mh_validate m w with
+                           | Some (POk b), Ok b' => Bool.eqb b b'
+                           | Some (PErr e), Err e' => err_eqb e e'
+                           | None, _ => true
+                           | _, _ => false
+                           end
+          | Err e, PErr e' => err_eqb e e'
+          | _, _ => false
+          end
+      end
+  end.
+
+(* what generate made is accepted by the refinement's own validate *)
+Definition mh_ok (c : mhcase) : bool :=
+  match c with
+  | KMh m s res so val =>
+      match res, val with
+      | POk _, Some (POk true) => true
+      | POk _, _ => false
+      | PErr _, _ => true
+      end
+  end.
+
+Definition run_mh (cases : list mhcase) : list N * list N := (failing mh_corr cases, failing mh_ok cases).
